@@ -124,6 +124,9 @@ class KeyCondition(Condition):
 
     def _qasm_(self, args: cirq.QasmArgs, **kwargs) -> str | None:
         args.validate_version('2.0', '3.0')
+        if self.index != -1:
+            # A classical register only holds the latest measurement of its key.
+            raise ValueError('QASM conditions can only test the latest measurement of a key.')
         key_str = str(self.key)
         if key_str not in args.meas_key_id_map:
             raise ValueError(f'Key "{key_str}" not in QasmArgs.meas_key_id_map.')
